@@ -53,9 +53,13 @@ def install(R):
         return mk_bool(z3.ForAll([q], z3.Implies(z3.Not(istmp(q)), z3.If(q == p, z3.Or(same, grown_), same))))
     S["GrowCrash"] = grow_crash
 
+
     R.add(K + "grow", result="none", props=["C04", "C08", "C16"],
           types={"crop": "obj:Crop", "verbosity": "int"},
-          fn_params={"fn": dict()},
+          # the function that is evaluated is the one given to grow, else the one that was SOWN (the crop's function file as it is on disk),
+          # whatever an older handle of the crop may still hold in memory: an obligation at every call of it
+          fn_params={"fn": dict(callee=("evaluates_the_given_or_the_sown_function",
+                                        "old(fn) if old(fn) is not None else from_pickle(old(fs_content(FnPath(crop.location))))"))},
           requires=[
               ("batch", "is_int(batch_number) and fs_exists(BatchPath(crop.location, batch_number)) and fs_complete(BatchPath(crop.location, batch_number)) "
                         "and is_seq(fs_content(BatchPath(crop.location, batch_number)))"),
@@ -72,6 +76,7 @@ def install(R):
                   ("calls", "LogPrefixKept(old(ncalls())) and "
                             "(ncalls() == old(ncalls()) + _i if num_workers is None else ncalls() == old(ncalls()) + slen(cases)) and "
                             "forall(lambda t: implies(0 <= t and t < (_i if num_workers is None else slen(cases)), call_kw(old(ncalls()) + t) == sget(cases, t)))"),
+
                   ("fs", "fs_unchanged()"),
               ]),
           },
